@@ -177,6 +177,9 @@ func Read(r io.ReaderAt, size int64) (*Directory, error) {
 	if err != nil {
 		return nil, err
 	}
+	if loc < 0 || loc > size {
+		return nil, errors.New("zip central directory is out of bounds")
+	}
 	cd := make([]byte, size-loc)
 	if _, err := r.ReadAt(cd, loc); err != nil {
 		return nil, err
